@@ -1060,6 +1060,22 @@ class Engine:
                 return self.ev_list(arrs[0].get("es", []), st, lambda vs: ("list", vs))
         if cal.endswith("Vec::<T>::new") or cal.endswith("Vec::<T, A>::new") or H.last(cal) in ("new",) and "Vec" in cal:
             return [("n", st, ("phvec", frozenset()))]
+        # a closure handed to a helper of the compiler and called there (`emit_body(self)`, `emit_skip(self, pos)`), or called
+        # where it was written
+        fnode = H.strip(n["f"]) if isinstance(n.get("f"), dict) else {}
+        clo = None
+        if fnode.get("k") == "closure":
+            clo = ("closure", fnode)
+        elif H.local_id(fnode) is not None and isinstance(st.env.get(H.local_id(fnode)), tuple) and st.env[H.local_id(fnode)][:1] == ("closure",):
+            clo = st.env[H.local_id(fnode)]
+        if clo is not None:
+            out = []
+            for ctl, s, vs in self.ev_list(n.get("args", []), st, lambda vs: ("args", vs)):
+                if ctl != "n":
+                    out.append((ctl, s, vs))
+                else:
+                    out.extend(self.call_closure(clo, vs[1], s))
+            return out
         return [(c, s, UNK) if c == "n" else (c, s, v) for c, s, v in self.ev_list(n.get("args", []), st, lambda vs: UNK)]
 
     def ev_mcall(self, n, st):
